@@ -140,6 +140,27 @@ func runWeb(c *harness.Ctx) harness.Result {
 	r := c.Rng
 	drv.IsolateEnv(c.Tmp)
 	p := c10.GenProfile(r)
+	// every other server starts with a settings file that is a symbolic link and already holds 60
+	// saved configurations, which every page lists in its menu whatever else is going on
+	kept := 0
+	if c.Index%2 == 1 {
+		real := filepath.Join(c.Tmp, "dotfiles")
+		os.MkdirAll(real, 0o755)
+		os.MkdirAll(filepath.Join(c.Tmp, "config", "pprof"), 0o755)
+		var sb strings.Builder
+		sb.WriteString(`{"configs":[`)
+		for i := 0; i < 60; i++ {
+			if i > 0 {
+				sb.WriteString(",")
+			}
+			fmt.Fprintf(&sb, `{"name":"keep%02d","focus":"%s","nodecount":%d}`, i, strings.Repeat("f", 200), i+1)
+		}
+		sb.WriteString(`]}`)
+		os.WriteFile(filepath.Join(real, "settings.json"), []byte(sb.String()), 0o644)
+		os.Symlink(filepath.Join(real, "settings.json"), filepath.Join(c.Tmp, "config", "pprof", "settings.json"))
+		kept = 60
+		c.Stat("web_servers_with_symlinked_settings", 1)
+	}
 	web, err := drv.StartWeb(&drv.MapFetcher{Profiles: map[string]*profile.Profile{"p": p}}, []string{"p"}, nil, nil, nil)
 	if err != nil {
 		return harness.Result{Verdict: harness.Inconclusive, Detail: err.Error()}
@@ -206,6 +227,8 @@ func runWeb(c *harness.Ctx) harness.Result {
 						_, body, pn := web.Get(u)
 						if pn != "" {
 							bad.Store("GET " + u + " panicked: " + pn)
+						} else if kept > 0 && strings.Contains(body, "keep00") != strings.Contains(body, "keep59") || kept > 0 && strings.Contains(body, "id=\"config") && !strings.Contains(body, "keep59") {
+							bad.Store("concurrent GET " + u + ": the page's configuration menu does not list the 60 configurations that were saved before the server started")
 						} else if !expect[u][stripMenu(body)] && !expect[u][body] && !matchesModuloMenu(expect[u], body) {
 							bad.Store("concurrent GET " + u + " returned a response that equals none of the sequential responses (for either option value written)")
 						}
